@@ -40,6 +40,14 @@ declarations:
   doxygen:
     brief: with defaults
 - decl: void arr(int *v +rank(1), int n +implied(size(v)))
+- decl: void report(int comm)
+  cpp_if: ifdef HAVE_COMM
+- decl: void report()
+  cpp_if: ifndef HAVE_COMM
+- decl: void gen(double v)
+  fortran_generic:
+  - decl: (float v)
+  - decl: (double v)
 - decl: enum Kind { ONE, TWO = 4 }
 - decl: class Obj
   doxygen:
@@ -131,6 +139,17 @@ def run(ctx):
                 d, argv = apply(desc, s, mode)
                 jobs.append((os.path.join(wd, "j%d" % len(jobs)), d, argv))
                 meta.append((dn, mode, s))
+    # one declaration at a time: the declaration-scoped options flipped on a single function
+    for dn, desc in descs.items():
+        nf = len(functions_under(desc))
+        for i in range(nf):
+            for s in ([frozenset(["literalinclude"]), frozenset(["debug", "doxygen", "literalinclude"])] if not quick or dn == "doc" else [frozenset(["debug", "doxygen", "literalinclude"])]):
+                d = copy.deepcopy(desc)
+                f = functions_under(d)[i]
+                for o in s:
+                    f.setdefault("options", {})[o] = not DEFAULTS[o]
+                jobs.append((os.path.join(wd, "j%d" % len(jobs)), d, ["--write-version"]))
+                meta.append((dn, "one#%d" % i, s))
     res = isolate.pmap(case, jobs, W)
     ref = {}
     for (dn, mode, s), (st, tree) in zip(meta, res):
@@ -139,6 +158,8 @@ def run(ctx):
     for (dn, mode, s), (st, tree) in zip(meta, res):
         ctx.outcome("%s %s" % (mode, st))
         label = "%s %s {%s}" % (dn, mode, ",".join(sorted(s)))
+        if mode.startswith("one#"):
+            mode = "one"
         if st != "ok":
             ctx.violation("failed %s" % label, "generation failed with options {%s} set %s: %s" % (",".join(sorted(s)), mode, tree), {"label": label})
             continue
